@@ -139,7 +139,10 @@ C05Destroy ==
         \* SELFDESTRUCT inside a frame that is reverted: the contract must survive with code, storage and balance
         CallCA(0, "catch", "900", <<Store(1), CallC(2, "catch", Z, <<Recall(3, "bubble", "C0", Z), Rev(4)>>), Store(5)>>, <<SelfD(6, "T")>>),
         CallC(0, "catch", "900", <<CallC(1, "catch", "500", <<Store(2), SelfD(3, "T")>>), Rev(4)>>),
-        CallC(0, "catch", "900", <<CallC(1, "catch", "500", <<CallC(2, "catch", "100", <<SelfD(3, "self")>>), Rev(4)>>), Store(5)>>) }}
+        CallC(0, "catch", "900", <<CallC(1, "catch", "500", <<CallC(2, "catch", "100", <<SelfD(3, "self")>>), Rev(4)>>), Store(5)>>),
+        \* ... also when a precompile call (which flushes the StateDB) comes between the SELFDESTRUCT and the revert
+        CallC(0, "catch", "900", <<CallC(1, "catch", Z, <<CallC(2, "catch", Z, <<Store(3), SelfD(4, "self")>>), Query(5), Rev(6)>>), Store(7)>>),
+        CallC(0, "catch", Z, <<CallC(1, "catch", "500", <<CallC(2, "catch", Z, <<Store(3), SelfD(4, "T")>>), Query(5), Rev(6)>>), Store(7)>>) }}
 \* (viii) a contract creation whose constructor called a precompile fails
 C05Create(m) == {[c |-> "N0", t |-> Create(0, Z, <<Store(1), PcM(2, "catch", m), Rev(3)>>)],
                  [c |-> "N0", t |-> Create(0, "600", <<PcM(2, "catch", m), Inval(3)>>)]}
@@ -164,10 +167,19 @@ C04Sequences ==
          a \in AllowOps, b \in AllowOps, c \in AllowOps,
          g \in {NoGrant, <<Grant("delegate", "2000000", FALSE, 0)>>, <<Grant("delegate", "2000000", FALSE, 0), Grant("ibc", "1500000", FALSE, 0)>>}}
 
+\* an allowance granted (or increased) inside a frame that is then reverted must not be spendable
+C04Reverted ==
+    {[setup |-> Setup("a1", "self", NoGrant, Z),
+      top |-> CallC(0, "catch", Z, <<CallC(1, "catch", v, <<PcG(2, "catch", "approve", "C0", "1000000"), t>>), Pc(4, "catch", sp, "S", "400000"), Store(5)>>)] :
+         sp \in {"delegate", "undelegate"}, t \in {Rev(3), Inval(3)}, v \in {Z, "400"}}
+    \cup {[setup |-> Setup("a1", "self", <<Grant("delegate", "2000000", FALSE, 0), Grant("undelegate", "2000000", FALSE, 0)>>, Z),
+           top |-> CallC(0, "catch", Z, <<CallC(1, "catch", Z, <<PcG(2, "catch", "increaseAllowance", "C0", "1000000"), Rev(3)>>),
+                                          Pc(4, "catch", sp, "S", "2500000"), Store(5)>>)] : sp \in {"delegate", "undelegate"}}
+
 Scenarios == CASE Family = "C02" -> C02Direct \cup C02ViaContract \cup C02Dirty \cup C02Nested \cup C02Forward \cup C02Plain \cup C02Own \cup C02Create
                [] Family = "C05" -> C05All
-               [] Family = "C04" -> C04Matrix \cup C04Sequences
-               [] Family = "C04small" -> C04Matrix
+               [] Family = "C04" -> C04Matrix \cup C04Sequences \cup C04Reverted
+               [] Family = "C04small" -> C04Matrix \cup C04Reverted
 
 ---------------------------------------------------------------------------
 (* abstract pre-state of a scenario, for the model-level check *)
